@@ -103,6 +103,29 @@ def run(tier):
                 emit(b)
             npl += 1
             ck.distinct(['list', n, rep])
+    # ---- form variant of bodies whose packets look like escapes to some decoder -------------
+    tricky = ['a\\nb', '\\n', '\\\\n', 'x\\n', '\\r\\n', '\\t', '\\u2028', 'a+b', '+', '%2B', '%5Cn',
+              '%', '%%', 'a&b=c', 'a;b', 'd=4x', '&d=', '=', 'a\nb', '\n', '"', "'", '\\"', 'é\\né']
+    tricky_json = [{'s': 'two\nlines'}, ['a\\nb'], {'k\n': 1}, 'only\n', {'p': '100%'}, ['+', '&', '=']]
+    for k, item in enumerate(tricky + tricky_json):
+        for ctx in (0, 1):
+            datas = [item] if ctx == 0 else ['head', item, 'tail']
+            refs = [R.ref_encode(4, d_, True) for d_ in datas]
+            body = R.RS.join(refs)
+            form = 'd=' + urllib.parse.quote(body, safe='')
+            a = payload_record(PL, P, body, maxp)
+            b = payload_record(PL, P, form, maxp)
+            same = (a['err'], a['n'], a['order']) == (b['err'], b['n'], b['order'])
+            if not a['err'] and not b['err']:
+                pa = PL.Payload(encoded_payload=body).packets
+                pb = PL.Payload(encoded_payload=form).packets
+                same = same and len(pa) == len(pb) and all(
+                    x.packet_type == y.packet_type and R.same_value(x.data, y.data)
+                    for x, y in zip(pa, pb))
+            emit({'k': 'form', 'same': bool(same), 'n': len(datas)})
+            emit(a)
+            emit(b)
+            ck.distinct(['tricky', k, ctx])
     # ---- every string up to a length bound over the adversarial alphabet -------------------
     L = 5 if th else 4
     nstr = 0
